@@ -9,6 +9,8 @@ pub enum Policy {
     Bump,
     Same,
     Lose,
+    /// renew() returns the identity itself and win_addr_conflict is non-strict (`>=`)
+    SameEq,
 }
 
 impl Policy {
@@ -18,6 +20,7 @@ impl Policy {
             Policy::Bump => "bump",
             Policy::Same => "same",
             Policy::Lose => "lose",
+            Policy::SameEq => "sameeq",
         }
     }
     pub fn parse(s: &str) -> Option<Policy> {
@@ -26,6 +29,7 @@ impl Policy {
             "bump" => Policy::Bump,
             "same" => Policy::Same,
             "lose" => Policy::Lose,
+            "sameeq" => Policy::SameEq,
             _ => return None,
         })
     }
@@ -90,7 +94,7 @@ impl foca::Identity for VId {
         match self.policy {
             Policy::None => None,
             Policy::Bump => Some(VId { addr: self.addr, gen: self.gen.wrapping_add(1), policy: self.policy }),
-            Policy::Same => Some(*self),
+            Policy::Same | Policy::SameEq => Some(*self),
             Policy::Lose => Some(VId { addr: self.addr, gen: self.gen.saturating_sub(1), policy: self.policy }),
         }
     }
@@ -100,6 +104,11 @@ impl foca::Identity for VId {
     }
 
     fn win_addr_conflict(&self, adversary: &Self) -> bool {
-        self.gen > adversary.gen
+        // nothing obliges an Identity to lose against an identity equal to itself
+        if self.policy == Policy::SameEq {
+            self.gen >= adversary.gen
+        } else {
+            self.gen > adversary.gen
+        }
     }
 }
